@@ -97,6 +97,74 @@ lay_manifest_state(const char *dbdir, rm_state_t *st, char *err, size_t en) {
   return 1;
 }
 
+/* C17 (fault stage): the file set the database reports == the fold of the MANIFEST that CURRENT names.
+ * 1 = equal, 0 = different (err set), -1 = the MANIFEST does not decode cleanly (no verdict) */
+int
+lay_reported_equals_manifest(ldb_t *db, const char *dbdir, char *err, size_t en) {
+  rm_state_t st;
+  uint64_t nums[128];
+  int levels[128], n, ok = 1;
+  size_t i, total;
+  if (!lay_manifest_state(dbdir, &st, err, en))
+    return -1;
+  n = kv_parse_sstables(db, nums, levels, 128);
+  total = rm_state_total_files(&st);
+  if ((size_t)n != total) {
+    snprintf(err, en, "the database reports %d tables, replaying the MANIFEST that CURRENT names gives %zu", n, total);
+    ok = 0;
+  }
+  for (i = 0; ok && i < (size_t)n; i++) {
+    size_t j;
+    int found = 0;
+    if (levels[i] < 0 || levels[i] >= RM_NUM_LEVELS) { ok = 0; break; }
+    for (j = 0; j < st.levels[levels[i]].nfiles; j++)
+      if (st.levels[levels[i]].files[j].number == nums[i])
+        found = 1;
+    if (!found) {
+      snprintf(err, en, "table #%llu is reported at level %d but replaying the MANIFEST that CURRENT names does not place it there", (unsigned long long)nums[i], levels[i]);
+      ok = 0;
+    }
+  }
+  rm_state_free(&st);
+  return ok;
+}
+
+/* C13 (fault stage): every table the database reports exists in the directory */
+int
+lay_reported_tables_exist(ldb_t *db, const char *dbdir, char *err, size_t en) {
+  uint64_t nums[128];
+  int levels[128], n, i;
+  n = kv_parse_sstables(db, nums, levels, 128);
+  for (i = 0; i < n; i++)
+    if (!table_file(dbdir, nums[i])) {
+      snprintf(err, en, "table #%llu (level %d) is part of the current version but is not in the directory", (unsigned long long)nums[i], levels[i]);
+      return 0;
+    }
+  return 1;
+}
+
+/* C13 (fault stage): every table named by the fold of the MANIFEST that CURRENT names exists.
+ * 1 = yes, 0 = one is missing (err set), -1 = the MANIFEST does not decode cleanly (no verdict) */
+int
+lay_manifest_tables_exist(const char *dbdir, char *err, size_t en) {
+  rm_state_t st;
+  int level, ok = 1;
+  if (!lay_manifest_state(dbdir, &st, err, en))
+    return -1;
+  for (level = 0; ok && level < RM_NUM_LEVELS; level++) {
+    size_t f;
+    for (f = 0; f < st.levels[level].nfiles; f++)
+      if (!table_file(dbdir, st.levels[level].files[f].number)) {
+        snprintf(err, en, "table #%llu (level %d) is named by the MANIFEST that CURRENT points to but is not in the directory",
+                 (unsigned long long)st.levels[level].files[f].number, level);
+        ok = 0;
+        break;
+      }
+  }
+  rm_state_free(&st);
+  return ok;
+}
+
 typedef struct ventry_s { int level; uint64_t file; int key; uint64_t seq; } ventry_t;
 
 int
